@@ -335,6 +335,20 @@ fn nat_dur(rep: &mut Report, v: &Value) {
         if !(Time::nat() + a).is_nat() || !(Time::nat() - a).is_nat() {
             return Err("NaT time of day +/- the duration is not NaT".into());
         }
+        if !(TimeDelta::nat() + a).is_nat() || !(a + TimeDelta::nat()).is_nat() || !(TimeDelta::nat() - a).is_nat() || !(a - TimeDelta::nat()).is_nat() {
+            return Err("NaT duration +/- the duration is not NaT".into());
+        }
+        if let Some(fs) = v.get("factors").and_then(|f| f.as_array()) {
+            for f in fs {
+                let k = f.as_i64().unwrap() as i32;
+                if !(TimeDelta::nat() * k).is_nat() {
+                    return Err(format!("NaT duration * {k} is not NaT"));
+                }
+            }
+            if !(-TimeDelta::nat()).is_nat() {
+                return Err("-NaT is not NaT".into());
+            }
+        }
         Ok(())
     });
     judge(rep, "NaT", "NaT|any duration", &key, "NaT", r, v);
